@@ -80,21 +80,17 @@ Definition msg_eqb (a b : msg) : bool :=
   kind_eqb (mkind a) (mkind b) && addr_eqb (msrc a) (msrc b) && addr_eqb (mdst a) (mdst b)
   && (mbody a =? mbody b)%N.
 
-Definition err_eqb (a b : err) : bool :=
-  match a, b with
-  | BadMarker, BadMarker | TooBig, TooBig | BadPayload, BadPayload | NoHandshake, NoHandshake
-  | WrongDirection, WrongDirection | RepeatedHandshake, RepeatedHandshake
-  | BadDestination, BadDestination | BadSource, BadSource => true
-  | _, _ => false
-  end.
-
 Definition event_eqb (a b : event) : bool :=
   match a, b with
   | EDeliver x, EDeliver y | EFail x, EFail y | ERefused x, ERefused y | ESent x, ESent y => msg_eqb x y
-  | EError x, EError y => err_eqb x y
+  | EError _, EError _ => true   (* that the receive path closed the connection is observed; the model's error
+                                    kind mirrors exception class/text, which the implementation is free to choose *)
   | EAssert, EAssert => true
   | _, _ => false
   end.
+
+(* how the harness writes "the connection was closed by an error on the receive path" *)
+Definition EErr : event := EError BadPayload.
 
 (* observed: events, closed?, peer_context_name, pending request ids, len(_recv_buf) *)
 Definition obs := (list event * bool * option N * list N * N)%type.
